@@ -427,6 +427,12 @@ def concrete_history_search(lkey, shape, pre, op, arg, canary, maxlen=7):
                 tail_restore = pre['has_save'] and ((not pre['not_saved'] and op not in ('restore', 'free')) or (pre['not_saved'] and op == 'save'))
                 if tail_restore:
                     tail.append(('restore', None))
+                # follow-up operations make a corrupted bookkeeping state (aliased buffers, clobbered save) visible:
+                # layout round trip, then (with save memory) a second save / layout change / restore cycle
+                others = [n for n in names]
+                tail += [('setLayout', n) for n in others] + [('setLayout', others[0])]
+                if pre['has_save']:
+                    tail += [('save', None), ('setLayout', others[-1]), ('write', None), ('setLayout', others[0]), ('restore', None), ('setLayout', others[-1])]
                 try:
                     state, probs = run_sequence(seq + tail, len(seq))
                 except Exception as e:
